@@ -56,6 +56,10 @@ def _tla(v):
     raise ValueError(v)
 
 
+def _phase(work, label):
+    log("[%5.0fs] %s" % (time.time() - work.t0, label))
+
+
 def _cases_from_tlc(out_file, dest, dedupe=True):
     """Extracts the JSON of every <<"CASE", "...">> line TLC printed; returns the count."""
     seen, n = set(), 0
@@ -341,6 +345,7 @@ def check(work, args):
     if "err" in box:
         raise box["err"]
     binary, dump = box["binary"], box["dump"]
+    _phase(work, "harness built, tables dumped, fee cases generated")
     table = dump["table"]
     by_name = {e["name"]: e for e in table}
     inputs_write_table(work, table)
@@ -362,6 +367,7 @@ def check(work, args):
         tg.join()
     if "err" in gen:
         raise gen["err"]
+    _phase(work, "fee cases executed, input cases generated")
     log("fee: %d real transactions on %d node configurations: %s" % (counts.get("cases", 0), cfgs, json.dumps(counts, sort_keys=True)))
     if counts.get("unexpected_other"):
         raise Infra("harness: %d workable transactions were refused by CheckTx for a reason other than the fee (the run observes nothing there): %s"
@@ -373,6 +379,7 @@ def check(work, args):
             raise Infra("vacuous: no real transaction ended as %s" % need)
     fviol, n_fprop, n_fdis, fsamples = fee_evaluate(work, fouts, fconsts, fover, fee_cases)
 
+    _phase(work, "fee formulas evaluated")
     in_cases, n_in = gen["res"]
     types, panics, executed, iouts = inputs_run(work, binary, in_cases, T["inputs"])
     if executed != n_in:
@@ -394,7 +401,9 @@ def check(work, args):
         for g, v in groups.items():
             if v["accept"] + v["passed_stateless_validation"] == 0:
                 raise Infra("vacuous: no %s input was ever accepted" % g)
+    _phase(work, "input cases executed")
     iviol, n_iprop, isamples = inputs_evaluate(work, iouts, T["inputs"]["Mode"])
+    _phase(work, "C20_NeverPanics evaluated")
 
     plist = []
     for key, p in sorted(panics.items(), key=lambda kv: (kv[1]["nonvalid_fields"], kv[0])):
